@@ -50,12 +50,13 @@ func runC12(seed uint64, n int, tier string, outDir string) []*Stats {
 	hexCases(r, n, cf, st)
 	numberCases(r, n, cf, st)
 	redundantCases(r, n, cf, st)
-	boxModelCases(r, 2*n, cf, st)
+	boxModelCases(r, n+n/2, cf, st)
 	mangleCases(r, n/2, cf, st)
 	glueTransform(r, n/2, st, cf)
-	glueBoxFamilies(r, n, st)
+	glueBoxFamilies(r, n/2+20, st)
 	glueBundle(r, n/3, st)
-	glueLocal(r, n/15, st)
+	glueLocal(r, n/25, st)
+	glueLocalGlobal(r, n/12, st)
 
 	st.Finish("seeded generator (splitmix64 from VERIF_SEED); distinct_nontrivial = distinct (family,input) pairs that exercise a non-identity path")
 	if err := os.WriteFile(filepath.Join(outDir, "c12_cases.v"), []byte(cf.String()), 0o644); err != nil {
